@@ -57,7 +57,7 @@ Qed.
 
 (* ---- inputs ---- *)
 Definition mkxs (cs : list spec_float) (ws : list Z) : list (keyed spec_float) :=
-  map (fun '(i, (c, w)) => (c, mkitem i [c] w)) (combine (seq 0 (length cs)) (combine cs ws)).
+  map (fun '(i, (c, w)) => (c, mkitem (N.of_nat i) [c] w)) (combine (seq 0 (length cs)) (combine cs ws)).
 Definition zs (l : list Z) : list spec_float := map (fun z => f32_of_Z z) l.
 Definition tol005 : spec_float := f64_of_bits 4587366580439587226%N.   (* 0.05 *)
 
